@@ -1,6 +1,7 @@
 package pc
 
 import (
+	"os"
 	"fmt"
 	"go/ast"
 	"go/constant"
@@ -15,6 +16,7 @@ import (
 // ---- C09/backup: typestate of the scanner's one-rune back-up.
 
 type backupClient struct {
+	backed   map[string]bool // sub-scanner -> every call from Scan follows a prev()
 	BaseClient
 	p        *Program
 	next     *types.Func
@@ -24,7 +26,7 @@ type backupClient struct {
 	// table extraction (Scan only)
 	tokenT   *types.Named
 	literals []tokenSite
-	classes  map[string][]bool // sub-scanner -> first characters (below U+0250) for which Scan calls it
+	classes  map[string][]bool // sub-scanner -> first characters (below U+3100) for which Scan calls it
 }
 
 type tokenSite struct {
@@ -68,6 +70,9 @@ func (c *backupClient) Inline(e *Engine, call *ast.CallExpr, callee *types.Func,
 	return !loops
 }
 
+// runeLimit: character classes are compared on U+0000..U+30FF.
+const runeLimit = 0x3100
+
 // noteClass: the first characters consistent with what this path knows about the character the iteration
 // dispatched on (constants it equals or differs from, predicates known to hold or not to hold for it).
 func (c *backupClient) noteClass(e *Engine, st *State, name string) {
@@ -82,7 +87,7 @@ func (c *backupClient) noteClass(e *Engine, st *State, name string) {
 		c.classes = map[string][]bool{}
 	}
 	if c.classes[name] == nil {
-		c.classes[name] = make([]bool, 0x250)
+		c.classes[name] = make([]bool, runeLimit)
 	}
 	f := st.Get(k)
 	type atom struct {
@@ -114,7 +119,7 @@ func (c *backupClient) noteClass(e *Engine, st *State, name string) {
 		}
 		atoms = append(atoms, a)
 	}
-	for r := rune(0); r < 0x250; r++ {
+	for r := rune(0); r < runeLimit; r++ {
 		ok := true
 		if f != nil {
 			if f.HasEq {
@@ -200,10 +205,20 @@ func (c *backupClient) isScannerMethod(fn *types.Func) bool {
 }
 
 func (c *backupClient) PreCall(e *Engine, st *State, call *ast.CallExpr, callee *types.Func) *State {
-	if c.tokenT != nil && len(e.Frames()) == 0 && e.Reporting() && c.isScannerMethod(callee) {
-		switch name := fnName(callee); name {
-		case "ident", "numberOrDot", "string", "quotedIdent":
-			c.noteClass(e, st, name)
+	if c.tokenT != nil && len(e.Frames()) == 0 && e.Reporting() && c.isScannerMethod(callee) && callee != c.next && callee != c.prev {
+		// a sub-scanner is entered: the first characters consistent with this path, and whether the character
+		// was given back first
+		name := fnName(callee)
+		c.noteClass(e, st, name)
+		if c.backed == nil {
+			c.backed = map[string]bool{}
+		}
+		rk, _ := c.recvKey(e, call)
+		if _, seen := c.backed[name]; !seen {
+			c.backed[name] = true
+		}
+		if !strings.HasPrefix(st.Ext("lastnext:"+rk), "after:prev") {
+			c.backed[name] = false
 		}
 	}
 	if callee != c.prev {
@@ -308,6 +323,11 @@ func (c *backupClient) LoopHead(e *Engine, st *State, loop ast.Stmt) *State {
 	if c.tokenT == nil || !c.isScanLoop(e, loop) {
 		return nil
 	}
+	for k := range st.ext {
+		if strings.HasPrefix(k, "snap:") {
+			st = st.WithExt(k, "") // what an earlier iteration remembered about its look-ahead
+		}
+	}
 	return st.WithExt("iterfirst", "").WithExt("itersecond", "").WithExt("iter:comment", "").WithExt("tok:emitted", "")
 }
 
@@ -323,48 +343,17 @@ func (c *backupClient) LoopBack(e *Engine, st *State, loop ast.Stmt) {
 	if k == "" {
 		return
 	}
+	if st.Ext("iter:comment") == "1" && st.Ext("tok:emitted") != "1" {
+		return // a `//` comment: the look-ahead was known to be a second slash on this path
+	}
 	f := st.GetVar(k)
 	if (f == nil || !f.HasEq) && st.Ext("tok:emitted") != "1" {
 		// a class of characters passed over without a token: the predicate known to hold for the character
 		// must be exactly the white-space class
-		kk := k
-		if a := st.Get("val:" + k); a != nil && a.Alias != nil {
-			kk = a.Alias.Key
+		if os.Getenv("PQL_DEBUG_SKIP") != "" {
+			fmt.Fprintln(os.Stderr, "SKIP", k, st.String())
 		}
-		for _, key := range st.Keys() {
-			if !strings.HasPrefix(key, "call:") || !strings.HasSuffix(key, "("+kk+")") {
-				continue
-			}
-			if g := st.Get(key); g == nil || !g.HasEq || g.Eq != "true" {
-				continue
-			}
-			name := strings.TrimSuffix(strings.TrimPrefix(key, "call:"), "("+kk+")")
-			site := fmt.Sprintf("%s white-space class %s", c.fn, name)
-			if name == "unicode.IsSpace" {
-				e.Site("C09/classes", site, loop, true, "characters passed over without a token are exactly unicode.IsSpace")
-				return
-			}
-			bad := ""
-			if i := strings.LastIndex(name, "."); i >= 0 {
-				if fd := c.p.FuncDecl(c.p.Parser, name[i+1:]); fd != nil {
-					for r := rune(0); r < 0x3100 && bad == ""; r++ {
-						got, ok := evalRunePred(c.p, fd, r, 0)
-						if !ok {
-							bad = "the predicate cannot be evaluated"
-						} else if got != unicode.IsSpace(r) {
-							bad = fmt.Sprintf("%s(%q) is %v but unicode.IsSpace says %v", name, r, got, unicode.IsSpace(r))
-						}
-					}
-				} else {
-					bad = "unknown predicate"
-				}
-			}
-			e.Site("C09/classes", site, loop, bad == "", "agrees with unicode.IsSpace on U+0000..U+30FF")
-			if bad != "" {
-				e.Site("C09/classes", site, loop, false, "the class of characters the lexer passes over as white space differs from the documented one: "+bad)
-			}
-			return
-		}
+		c.noteClass(e, st, "skip")
 		return
 	}
 	if f == nil || !f.HasEq {
@@ -381,6 +370,7 @@ func (c *backupClient) LoopBack(e *Engine, st *State, loop ast.Stmt) {
 		// any other character that is passed over without a token must be white space
 		if st.Ext("tok:emitted") != "1" {
 			okSp := unicode.IsSpace(rune(n))
+			c.noteClass(e, st, "skip")
 			e.Site("C09/classes", fmt.Sprintf("%s skips %q without a token", c.fn, ch), loop, okSp, "white space")
 			if !okSp {
 				e.Site("C09/classes", fmt.Sprintf("%s skips %q without a token", c.fn, ch), loop, false, "a character that is not white space is passed over without a token or an error token")
@@ -470,9 +460,30 @@ func (c *backupClient) recordToken(e *Engine, st *State, n ast.Node) *State {
 				}
 			}
 		}
+		// a value switch on the character: the case constants themselves
+		if sw, ok := e.P.Parent(e.P.Parent(clause)).(*ast.SwitchStmt); ok && sw.Tag != nil && len(site.first) == 0 {
+			for _, ce := range clause.List {
+				if v := constOf(e.Info, ce); v != nil && v.Kind() == constant.Int {
+					n, _ := constant.Int64Val(v)
+					site.first = append(site.first, string(rune(n)))
+					cmpVar = sw.Tag
+				}
+			}
+		}
 		// a clause for several characters: the path facts say which one this state is about
 		if len(site.first) > 1 && cmpVar != nil {
 			if f := e.FactOf(st, cmpVar); f != nil && f.HasEq {
+				if n, ok := parseInt(f.Eq); ok {
+					site.first = []string{string(rune(n))}
+				}
+			}
+		}
+	}
+	// no dispatch clause names the character (a table lookup, an if-chain): what the path knows about the character
+	// this iteration read first
+	if len(site.first) == 0 {
+		if k := st.Ext("iterfirst"); k != "" && (st.Ext("itersecond") == "" || st.Ext("itersecond") != k) {
+			if f := st.GetVar(k); f != nil && f.HasEq {
 				if n, ok := parseInt(f.Eq); ok {
 					site.first = []string{string(rune(n))}
 				}
@@ -798,7 +809,7 @@ func ruleC09Dispatch(p *Program, r *Run, sites []tokenSite, classes map[string][
 
 	// sub-scanner dispatch classes
 	scan := p.MustFunc(pkg, "Scan")
-	// decided on path facts: the set of first characters (below U+0250) consistent with what is known where Scan
+	// decided on path facts: the set of first characters (below U+3100) consistent with what is known where Scan
 	// calls each sub-scanner, against the documented class
 	isAl := func(c rune) bool { return 'a' <= c && c <= 'z' || 'A' <= c && c <= 'Z' }
 	docClass := map[string]func(c rune) bool{
@@ -814,14 +825,28 @@ func ruleC09Dispatch(p *Program, r *Run, sites []tokenSite, classes map[string][
 		if set == nil {
 			bad = "Scan never calls it"
 		}
-		for c := rune(0); c < 0x250 && bad == ""; c++ {
+		for c := rune(0); c < runeLimit && bad == ""; c++ {
 			if set[c] != docClass[name](c) {
 				bad = fmt.Sprintf("%q: entered=%v, documented=%v", c, set[c], docClass[name](c))
 			}
 		}
-		r.Check(bad == "", "C09/classes", fmt.Sprintf("%s first-character class of %s", fn, name), p.Pos(scan.Pos()), "entered exactly for first characters "+docText[name]+" (path facts at the call, U+0000..U+024F)", fmt.Sprintf("sub-scanner %s is not entered for exactly the documented first characters %s: %s", name, docText[name], bad))
+		r.Check(bad == "", "C09/classes", fmt.Sprintf("%s first-character class of %s", fn, name), p.Pos(scan.Pos()), "entered exactly for first characters "+docText[name]+" (path facts at the call, U+0000..U+30FF)", fmt.Sprintf("sub-scanner %s is not entered for exactly the documented first characters %s: %s", name, docText[name], bad))
 	}
-	// character predicates evaluated over the first 0x250 code points
+	// the characters passed over without a token are exactly the white-space class
+	{
+		bad := ""
+		set := classes["skip"]
+		if set == nil {
+			bad = "no path of the scan loop passes over a character"
+		}
+		for c := rune(0); c < runeLimit && bad == ""; c++ {
+			if set[c] != unicode.IsSpace(c) {
+				bad = fmt.Sprintf("%q (U+%04X): passed over=%v, white space=%v", c, c, set[c], unicode.IsSpace(c))
+			}
+		}
+		r.Check(bad == "", "C09/classes", fn+" white-space class", p.Pos(scan.Pos()), "the characters an iteration of the scan loop passes over without a token are exactly unicode.IsSpace (path facts at the back edge, U+0000..U+30FF)", "the class of characters the lexer passes over as white space differs from the documented one: "+bad)
+	}
+	// character predicates evaluated over the first 0x3100 code points
 	preds := map[string]func(c rune) bool{
 		"isAlpha":    func(c rune) bool { return 'a' <= c && c <= 'z' || 'A' <= c && c <= 'Z' },
 		"isDigit":    func(c rune) bool { return '0' <= c && c <= '9' },
@@ -830,7 +855,7 @@ func ruleC09Dispatch(p *Program, r *Run, sites []tokenSite, classes map[string][
 	for _, name := range []string{"isAlpha", "isDigit", "isHexDigit"} {
 		fd := p.MustFunc(pkg, name)
 		bad := ""
-		for c := rune(0); c < 0x250 && bad == ""; c++ {
+		for c := rune(0); c < runeLimit && bad == ""; c++ {
 			got, ok := evalRunePred(p, fd, c, 0)
 			if !ok {
 				bad = "predicate body is not a pure boolean expression over its argument"
@@ -838,7 +863,7 @@ func ruleC09Dispatch(p *Program, r *Run, sites []tokenSite, classes map[string][
 				bad = fmt.Sprintf("%s(%q) is %v, documented class says %v", name, c, got, preds[name](c))
 			}
 		}
-		r.Check(bad == "", "C09/classes", "parser."+name+" character class", p.Pos(fd.Pos()), "agrees with the documented class on U+0000..U+024F (symbolic evaluation of the predicate expression)", bad)
+		r.Check(bad == "", "C09/classes", "parser."+name+" character class", p.Pos(fd.Pos()), "agrees with the documented class on U+0000..U+30FF (symbolic evaluation of the predicate expression)", bad)
 	}
 	// identifier continuation class in ident(): !(isAlpha(c) || isDigit(c) || c == '_')
 	r.Floor("C09/classes", 7)
@@ -1829,4 +1854,30 @@ func runeAtom(p *Program, key, rk string, r rune) (val, known bool) {
 		}
 	}
 	return false, false
+}
+
+// scanEntryClasses: for every sub-scanner Scan calls, the set of first characters (below runeLimit) consistent with
+// the path facts at its calls, and whether every call follows a back-up over the character just read.
+func (p *Program) scanEntryClasses() (map[string][]bool, map[string]bool) {
+	if p.entryClasses != nil {
+		return p.entryClasses, p.entryBacked
+	}
+	pkg := p.Parser
+	p.entryClasses, p.entryBacked = map[string][]bool{}, map[string]bool{}
+	fd := p.FuncDecl(pkg, "Scan")
+	if fd == nil {
+		return p.entryClasses, p.entryBacked
+	}
+	c := &backupClient{p: p, next: FuncObj(pkg, p.MustFunc(pkg, "scanner.next")), prev: FuncObj(pkg, p.MustFunc(pkg, "scanner.prev")), scannerT: p.Named(pkg, "scanner"), fn: FuncName(pkg, fd), tokenT: p.Named(pkg, "Token")}
+	e := NewEngine(p, pkg, fd, c)
+	e.Run(nil)
+	if len(e.Errs) == 0 {
+		for k, v := range c.classes {
+			p.entryClasses[k] = v
+		}
+		for k, v := range c.backed {
+			p.entryBacked[k] = v
+		}
+	}
+	return p.entryClasses, p.entryBacked
 }
